@@ -36,6 +36,7 @@ func init() {
 		"(*sync.RWMutex).RLock":   lockOp(true, true),
 		"(*sync.RWMutex).RUnlock": lockOp(false, true),
 		"sync/atomic.AddUint64":   atomicAdd,
+		"sync/atomic.LoadUint64":  atomicLoad,
 		"github.com/enbility/spine-go/model.writeAllowed":                 leafWriteAllowed,
 		"github.com/enbility/spine-go/model.HasIdentifiers":               leafHasIdentifiers,
 		"github.com/enbility/spine-go/model.hashKey":                      leafHashKey,
@@ -61,6 +62,12 @@ func init() {
 		"(*sync.RWMutex).RLock": heldMod, "(*sync.RWMutex).RUnlock": heldMod,
 		"sync/atomic.AddUint64": func(fr *Frame, c *ssa.CallCommon, set map[string]bool) {
 			fr.typeCells(types.Typ[types.Uint64], set)
+			set["acq"] = true
+			fr.vc.compSort["acq"] = "(Array Int Int)"
+		},
+		"sync/atomic.LoadUint64": func(fr *Frame, c *ssa.CallCommon, set map[string]bool) {
+			set["acq"] = true
+			fr.vc.compSort["acq"] = "(Array Int Int)"
 		},
 		"reflect.DeepEqual": nop,
 		"errors.New":        func(fr *Frame, c *ssa.CallCommon, set map[string]bool) { set["wm"] = true },
@@ -214,7 +221,23 @@ func atomicAdd(fr *Frame, site ssa.Instruction, fn *ssa.Function, args []*Term, 
 	old := vc.load(st, t, args[0])
 	nv := vc.name("atom", "Int", app("+", old, args[1]))
 	vc.storeVal(st, t, args[0], nv)
+	countAtomicOp(vc, st, args[0])
 	return []*Term{nv}
+}
+
+// an atomic operation on a cell is one critical section of that cell: it is counted like a lock acquisition, so that
+// "acquisitions(x) == 1" states that a function touches the atomic cell x in exactly one indivisible step
+func countAtomicOp(vc *VC, st *State, a *Term) {
+	acq := vc.comp(st, "acq", "(Array Int Int)")
+	vc.setComp(st, "acq", "(Array Int Int)", vc.name("acq", "(Array Int Int)", mkStore(acq, a, app("+", mkSelect(acq, a), leaf("1")))))
+}
+
+func atomicLoad(fr *Frame, site ssa.Instruction, fn *ssa.Function, args []*Term, st *State) []*Term {
+	vc := fr.vc
+	vc.assumptions["sync/atomic.LoadUint64: linearizable read"] = true
+	v := vc.load(st, types.Typ[types.Uint64], args[0])
+	countAtomicOp(vc, st, args[0])
+	return []*Term{v}
 }
 
 // staticIfaceOperand recovers the static type and value behind an interface-typed SSA operand.
